@@ -376,7 +376,87 @@ def extract_init_sims(src):
     raise ExtractError('single_run: `if do_run:` not found')
 
 
-@generator('RunFacts', [REL])
+# --- starsim/sim.py: what run.py relies on ------------------------------------
+
+SIM = 'starsim/sim.py'
+
+
+def _body(fn):
+    return [st for st in fn.body if not (isinstance(st, ast.Expr) and isinstance(st.value, ast.Constant))]
+
+
+def extract_sim_init(src):
+    """ Sim.init: is the FIRST statement the unconditional reset of the process-global generators from the sim's own seed?
+        (Every member of a multi-run then starts its global-generator stream from its seed, whatever the worker held.)
+        Sim.run must initialise a not yet initialised sim itself. """
+    fn = src.func(SIM, 'init', 'Sim')
+    stmts = _body(fn)
+    first = unparse(stmts[0]).replace('"', "'") if stmts else ''
+    seeds_first = first in ('ss.set_seed(self.pars.rand_seed)', "ss.set_seed(self.pars['rand_seed'])")
+    run = src.func(SIM, 'run', 'Sim')
+    ok = False
+    for st in _body(run):
+        if isinstance(st, ast.If) and unparse(st.test) == 'not self.initialized' and any(unparse(x) == 'self.init()' for x in st.body):
+            ok = True
+    if not ok:
+        raise ExtractError('Sim.run: `if not self.initialized: self.init()` not found')
+    return seeds_first
+
+
+def extract_summarize(src):
+    """ Sim.summarize: the default `how` table (ordered; first key that is a substring of the result key decides), and which
+        attributes of `self` the function reads / writes (it must be a function of self.results alone). """
+    fn = src.func(SIM, 'summarize', 'Sim')
+    table = None
+    for st in _body(fn):
+        if isinstance(st, ast.If) and unparse(st.test).replace('"', "'") == "how == 'default'":
+            for inner in ast.walk(st):
+                if isinstance(inner, ast.Assign) and unparse(inner.targets[0]) == 'how' and isinstance(inner.value, ast.Dict) and table is None:
+                    table = [(_const(k, 'how key'), _const(v, 'how value')) for k, v in zip(inner.value.keys, inner.value.values)]
+    if table is None:
+        raise ExtractError("Sim.summarize: `if how == 'default': how = {...}` not found")
+    for k, v in table:
+        if not isinstance(k, str) or v not in ('mean', 'median', 'last'):
+            raise ExtractError(f'Sim.summarize: unsupported default how entry {k!r}: {v!r}')
+    reads = set(); writes = set()
+    for n in ast.walk(fn):
+        if isinstance(n, ast.Attribute) and isinstance(n.value, ast.Name) and n.value.id == 'self':
+            (writes if isinstance(n.ctx, ast.Store) else reads).add(n.attr)
+    # get_result: what each named function computes; get_func: substring match over the table in order
+    funcs = {}; substring = False
+    for n in ast.walk(fn):
+        if isinstance(n, ast.If) and isinstance(n.test, ast.Compare) and unparse(n.test.left) == 'func' and len(n.test.ops) == 1 \
+                and isinstance(n.test.ops[0], ast.Eq) and isinstance(n.test.comparators[0], ast.Constant) \
+                and len(n.body) == 1 and isinstance(n.body[0], ast.Return):
+            funcs[n.test.comparators[0].value] = unparse(n.body[0].value)
+        if isinstance(n, ast.For) and unparse(n.iter) == 'how.items()' and isinstance(n.target, ast.Tuple) and len(n.target.elts) == 2:
+            kname = unparse(n.target.elts[0])
+            for inner in n.body:
+                if isinstance(inner, ast.If) and unparse(inner.test) == f'{kname} in key':
+                    substring = True
+    want = dict(mean='res.mean()', median='np.median(res)', last='res[-1]')
+    for k, v in want.items():
+        if funcs.get(k) != v:
+            raise ExtractError(f'Sim.summarize.get_result: {k!r} computes {funcs.get(k)!r}, expected {v!r}')
+    if not substring:
+        raise ExtractError('Sim.summarize.get_func: the substring match `if hkey in key` over how.items() was not found')
+    return table, sorted(reads), sorted(writes)
+
+
+def extract_reduce_summary(src):
+    """ MultiSim.reduce: after the statistics loop the reduced sim is summarised again and that summary becomes msim.summary """
+    fn = src.func(REL, 'reduce', 'MultiSim')
+    stmts = _body(fn)
+    i_loop = i_sum = i_store = None
+    for i, st in enumerate(stmts):
+        t = unparse(st)
+        if isinstance(st, ast.For) and 'res[:]' in t: i_loop = i
+        if t == 'reduced_sim.summarize()': i_sum = i
+        if t == 'self.summary = reduced_sim.summary': i_store = i
+    return bool(i_loop is not None and i_sum is not None and i_store is not None and i_loop < i_sum < i_store)
+
+
+@generator('RunFacts', [REL, SIM])
 def gen_run_facts(src):
     expr = extract_single_run(src)
     rs_single, rs_list, serial_copies = extract_multi_run(src)
@@ -386,6 +466,10 @@ def gen_run_facts(src):
         raise ExtractError('reduce: inconsistent defaults')
     par_list = extract_parallel(src)
     no_init = extract_init_sims(src)
+    seeds_first = extract_sim_init(src)
+    how_table, sum_reads, sum_writes = extract_summarize(src)
+    red_sum = extract_reduce_summary(src)
+    lstr = lambda x: '"' + x.replace('\\', '\\\\').replace('"', '\\"') + '"'
     bounds_fn = {'none': 'match b with | none => defaultBounds | some x => x',
                  'falsy': 'match b with | none => defaultBounds | some x => if x = 0 then defaultBounds else x'}[bkind]
     quant_fn = {'none': 'match q with | none => (defaultQLow, defaultQHigh) | some p => p',
@@ -427,10 +511,25 @@ def quantilesArg (q : Option (Rat × Rat)) : Rat × Rat := {quant_fn}
 def parallelWrapsList : Bool := {b(par_list)}
 /-- `single_run(do_run=False)` only applies seed and parameters; it does not call `sim.init()` -/
 def doRunFalseSkipsInit : Bool := {b(no_init)}
+/-- `Sim.init`: the first statement is the unconditional `ss.set_seed(self.pars.rand_seed)` (reset of the process-global generators) -/
+def initSeedsGlobalFirst : Bool := {b(seeds_first)}
+/-- functions of `Sim.summarize.get_result` -/
+inductive HowFunc where
+  | mean | median | last
+  deriving Repr, DecidableEq
+/-- `Sim.summarize`: the default `how` table, in order (the first key that is a substring of the result key decides) -/
+def summarizeHow : List (String × HowFunc) := [{', '.join(f'({lstr(k_)}, .{v_})' for k_, v_ in how_table)}]
+/-- `Sim.summarize`: the attributes of `self` it reads / writes -/
+def summarizeSelfReads : List String := [{', '.join(lstr(x) for x in sum_reads)}]
+def summarizeSelfWrites : List String := [{', '.join(lstr(x) for x in sum_writes)}]
+/-- `MultiSim.reduce`: `reduced_sim.summarize()` after the statistics loop, then `self.summary = reduced_sim.summary` -/
+def reduceSummaryRecomputed : Bool := {b(red_sum)}
 end StarsimModel.Gen
 '''
     facts = dict(reseed_expr=expr, reseed_default_single=rs_single, reseed_default_list=rs_list, serial_copies=serial_copies,
                  mean={k_: _show_stat(v) for k_, v in mean_b.items()}, median={k_: _show_stat(v) for k_, v in med_b.items()},
                  default_bounds=str(k), default_quantiles=[str(qlow), str(qhigh)],
-                 bounds_default_test=bkind, quantiles_default_test=qkind, parallel_wraps_list=par_list, do_run_false_skips_init=no_init)
+                 bounds_default_test=bkind, quantiles_default_test=qkind, parallel_wraps_list=par_list, do_run_false_skips_init=no_init,
+                 init_seeds_global_first=seeds_first, summarize_how=[list(x) for x in how_table], summarize_self_reads=sum_reads,
+                 summarize_self_writes=sum_writes, reduce_summary_recomputed=red_sum)
     return body, facts
